@@ -94,12 +94,14 @@ macro_rules! impl_mock {
     };
 }
 impl_mock!(Ix1, ArrayView1, rows1, Array1<f64>, |n, _t| Array1::zeros(n), |y, p, id, m| {
-    y[p] = (100000 * (m + 1) + 1000 + 4 * id) as f64;
+    // accumulate (legal for PredictInplace: the buffer comes from default_target = zeros), so a buffer
+    // shared between candidate models or reused across folds shows up in the predictions
+    y[p] += (100000 * (m + 1) + 1000 + 4 * id) as f64;
 });
 impl_mock!(Ix2, ArrayView2, rows2, Array2<f64>, |n, t| Array2::zeros((n, t)), |y, p, id, m| {
     let t = y.ncols();
     for c in 0..t {
-        y[[p, c]] = (100000 * (m + 1) + 1000 + 4 * id + c) as f64;
+        y[[p, c]] += (100000 * (m + 1) + 1000 + 4 * id + c) as f64;
     }
 });
 
